@@ -43,7 +43,13 @@ RULE = (
     "child interpreters that, before importing flow.record, close descriptor 1 / 0 / 2 / all three (also with descriptor 0 re-occupied "
     "so that the record file lands on descriptor 1), replace sys.stdout by a BytesIO-like or StringIO object, or start with stdout a "
     "pipe / a file / closed, then run compact close / with-exit / double-close histories for stream, .gz, jsonfile, csvfile, avro and "
-    "sqlite on real paths; the parent reads the files after the child exited.  The seed "
+    "sqlite on real paths; the parent reads the files after the child exited.  The child family also runs under optimised "
+    "interpreters (plain, -O, -OO, PYTHONOPTIMIZE=1/2: Avro histories mixing two record types, Avro / SQLite refusals, split+avro parts "
+    "that start with the other type, split with grouped records) and with RELATIVE output paths while the application changes its working "
+    "directory before the first write / between writes / before close (every path-based adapter).  (f) low-level and legacy public "
+    "writers on caller-supplied file objects - RecordStreamWriter / RecordOutput on open(), gzip.open, GzipFile, BZ2File, BufferedWriter, "
+    "RecordPrinter, and flow.record.RecordDateSplitter - judged right after close() while the writer is still referenced and the cyclic "
+    "GC is off; SQLite histories with a refused record at every position relative to the batch boundary (batch sizes 1,2,3,4,1000).  The seed "
     "varies the record values only; the enumerated spaces are the same for every seed.  A case is non-trivial when the "
     "writer was created and its history ran; distinct = distinct (part, adapter/target, history or N/limit/suffix or "
     "pattern/sentinel mode).  Oracle: conservation - the canonical observations (observe.obs) found on disk by the format's "
@@ -67,6 +73,9 @@ ASSUMPTIONS = [
     "what was handed to write() (a write() that raises therefore counts as a lost record)",
     "rotated files are recognised by directory and by containing the stem (text before the first dot) of the template name",
     "the writer object is dropped after the history, so AbstractWriter.__del__ adds one more close() to every history",
+    "a record of another type offered to an Avro file, an integer beyond 64 bits or text with a lone surrogate offered to Avro / SQLite may "
+    "be refused (the application catches the error and carries on); conservation is demanded over the records whose write() returned",
+    "PathTemplateWriter / RecordArchiver are not part of the working-directory family (their path is computed per record by design)",
     "a process-state child that cannot report (exit code, missing status file, watchdog) makes the run inconclusive, never violated",
     "stdout workers run with PYTHONIOENCODING=utf-8 and stdout connected to a pipe (not a tty); the interpreter's own flush of "
     "sys.stdout at exit is part of the observed behaviour; split:// on stdout (which never splits) is not exercised",
@@ -314,6 +323,42 @@ def generate(ctx):
                 yield {"k": "splitrel", "form": form, "limit": limit, "sl": sl, "n": n, "end": end,
                        "s": subseed("c17", ctx.seed, "brel", form, limit, sl, n)}
             idx += 1
+    # (f) low-level / legacy public writers on caller-supplied file objects, judged right after close()
+    for tg in LL_TARGETS:
+        for h in LL_HISTORIES:
+            if ctx.mine(idx):
+                yield {"k": "ll", "tg": tg, "h": h, "s": subseed("c17", ctx.seed, "f", tg, h)}
+            idx += 1
+        if LL_TARGETS[tg][0] == "stream":
+            for sq in GROUPED_SEQS[:2]:
+                if ctx.mine(idx):
+                    yield {"k": "ll", "tg": tg, "h": "wwwc", "sq": sq, "s": subseed("c17", ctx.seed, "fg", tg, sq)}
+                idx += 1
+    for pat in ("ab", "aba", "abcab", "aab", "abcabc", "a"):
+        for end in ("c", "cc"):
+            if ctx.mine(idx):
+                yield {"k": "datesplit", "pat": pat, "end": end, "s": subseed("c17", ctx.seed, "g", pat, end)}
+            idx += 1
+    # (a4) SQLite: one or two refused records at every position relative to the batch boundary
+    for bs in (1, 2, 3, 4, 1000):
+        for pos in range(7):
+            for bad in ("b", "s"):
+                seq = "v" * pos + bad + "v" * (6 - pos)
+                if ctx.quick and (pos + bs + (bad == "s")) % 2:
+                    continue
+                if ctx.mine(idx):
+                    yield {"k": "sqlrefuse", "seq": seq, "bs": bs, "end": "cx"[(pos + bs) % 2], "s": subseed("c17", ctx.seed, "s", bs, seq)}
+                idx += 1
+        for seq in ("vvbsvv", "bvvvs", "vsvbvsv"):
+            if ctx.mine(idx):
+                yield {"k": "sqlrefuse", "seq": seq, "bs": bs, "end": "c", "s": subseed("c17", ctx.seed, "s2", bs, seq)}
+            idx += 1
+    # (e2) optimised interpreters and (e3) working-directory histories: at least one child of each per shard
+    variants = list(OPT_VARIANTS)
+    for r in range(1 if ctx.quick else 3):
+        yield {"k": "opt", "v": variants[(ctx.shard + r) % len(variants)], "rot": r, "s": subseed("c17", ctx.seed, "h", ctx.shard, r)}
+    for r in range(1 if ctx.quick else 4):
+        yield {"k": "cwd", "rot": (ctx.shard + 2 * r) % len(CWD_KINDS), "nk": 5 if ctx.quick else len(CWD_KINDS), "s": subseed("c17", ctx.seed, "i", ctx.shard, r)}
     # (e) process-state family: one child per (state, rotation of the adapter order)
     for st in PROC_STATES:
         for rot in range(2 if ctx.quick else len(PROC_KINDS)):
@@ -551,7 +596,7 @@ def analyse_parts(ctx, case, d, spec, read_scheme, expected, extra, sample_kind)
         if digits != str(i).rjust(sl, "0"):
             ctx.violation(None, "split: a part's suffix is not its number padded to the suffix length", detail=dict(extra, part=nm, files=names))
     ctx.event("b_parts", len(parts))
-    if sample_kind.startswith("splitrel"):
+    if sample_kind.startswith(("splitrel", "optsplit")):
         ctx.event("b_rel_parts", len(parts))  # written by a worker process: not visible to this process's open monitor
 
     concat_reader, concat_indep, raw = [], [], []
@@ -1064,6 +1109,429 @@ def exec_split_relative(ctx, case):
     shutil.rmtree(d, ignore_errors=True)
 
 
+def run_state_child(ctx, state, jobs, d, pyflags=(), envextra=None, what="process-state"):
+    """Run verif.worker_c17 --state in a child interpreter.  -> status dict, or None (reported as inconclusive: a child that
+    cannot report is never a verdict)."""
+    jobs_path, status_path = os.path.join(d, "jobs.json"), os.path.join(d, "status.json")
+    with open(jobs_path, "w") as f:
+        json.dump(jobs, f)
+    ctx.ev()
+    argv = [sys.executable, "-W", "ignore"] + list(pyflags) + ["-m", "verif.worker_c17", "--state", state, jobs_path, status_path]
+    kw = {"stdin": subprocess.DEVNULL, "stdout": subprocess.PIPE, "stderr": subprocess.PIPE}
+    sink = None
+    if state == "stdout-file":
+        sink = open(os.path.join(d, "child-stdout.bin"), "wb")
+        kw["stdout"] = sink
+    elif state == "stdout-closed-at-start":
+        argv = ["/bin/sh", "-c", 'exec "$0" "$@" >&-'] + argv  # the interpreter starts without descriptor 1 (sys.stdout is None)
+    env = worker_env()
+    env.pop("PYTHONOPTIMIZE", None)
+    env.update(envextra or {})
+    try:
+        p = subprocess.run(argv, env=env, cwd=VERIF_DIR, timeout=WORKER_TIMEOUT_S, **kw)
+    except subprocess.TimeoutExpired:
+        ctx.require(False, "a C17 %s child exceeded its %d s watchdog" % (what, WORKER_TIMEOUT_S))
+        return None
+    finally:
+        if sink:
+            sink.close()
+    ctx.event("e_children_run")
+    status = None
+    try:
+        with open(status_path) as f:
+            status = json.load(f)
+    except (OSError, ValueError):
+        pass
+    if status is None or not status.get("done") or p.returncode != 0:
+        ctx.require(False, "a C17 %s child (%s %s) failed: exit %s, %s" % (
+            what, state, " ".join(pyflags), p.returncode, (status or {}).get("worker_error") or (p.stderr or b"")[-300:].decode("utf-8", "replace")))
+        return None
+    repo = os.path.realpath(os.environ.get("VERIF_REPO", "/repo"))
+    if not os.path.realpath(status["flow_record_file"]).startswith(repo + os.sep):
+        ctx.require(False, "C17 %s child imported flow.record from %s, not from %s" % (what, status["flow_record_file"], repo))
+        return None
+    return status
+
+
+# ---- (f) low-level and legacy public writers, judged right after close() ------------------------------------------
+LL_TARGETS = {
+    # name -> (family for reading, codec, file extension)
+    "rsw-file": ("stream", None, ".records"),
+    "rsw-gzip-open": ("stream", "gz", ".records.gz"),
+    "rsw-gzipfile": ("stream", "gz", ".records.gz"),
+    "rsw-bz2": ("stream", "bz2", ".records.bz2"),
+    "rsw-buffered": ("stream", None, ".records"),
+    "routput-file": ("stream", None, ".records"),
+    "routput-gzip": ("stream", "gz", ".records.gz"),
+    "printer": ("text", None, ".txt"),
+}
+LL_HISTORIES = ["c", "fc", "wc", "wcc", "wwc", "wfwc", "wwwcc", "wwfc", "ffc", "wwwc"]
+
+
+def open_lowlevel(target, path):
+    import bz2
+    import gzip
+    import io
+
+    from flow.record import RecordOutput, RecordPrinter, RecordStreamWriter
+
+    if target == "rsw-file":
+        fp = open(path, "wb")
+        return RecordStreamWriter(fp), fp
+    if target == "rsw-gzip-open":
+        fp = gzip.open(path, "wb")
+        return RecordStreamWriter(fp), fp
+    if target == "rsw-gzipfile":
+        fp = gzip.GzipFile(path, "wb")
+        return RecordStreamWriter(fp), fp
+    if target == "rsw-bz2":
+        fp = bz2.BZ2File(path, "wb")
+        return RecordStreamWriter(fp), fp
+    if target == "rsw-buffered":
+        fp = io.BufferedWriter(io.FileIO(path, "wb"), buffer_size=1 << 16)
+        return RecordStreamWriter(fp), fp
+    if target == "routput-file":
+        fp = open(path, "wb")
+        return RecordOutput(fp), fp
+    if target == "routput-gzip":
+        fp = gzip.open(path, "wb")
+        return RecordOutput(fp), fp
+    if target == "printer":
+        fp = open(path, "wb")
+        return RecordPrinter(fp), fp
+    raise ValueError(target)
+
+
+def exec_lowlevel(ctx, case):
+    """RecordStreamWriter / RecordOutput / RecordPrinter on caller-supplied file objects: what is on disk is judged right
+    after close() while the writer and the file object are still referenced and the cyclic GC is off."""
+    import gc
+
+    target, hist = case["tg"], case["h"]
+    fam, codec, ext = LL_TARGETS[target]
+    d = case_dir(ctx)
+    path = os.path.join(d, "out" + ext)
+    nw = hist.count("w")
+    records = io17.make_records(case["s"], nw, "xyzgG" if fam == "stream" else "xyz", shape_seq=case.get("sq"))
+    expected = io17.observe_all(records)
+    errors = []
+    ctx.ev()
+    was_enabled = gc.isenabled()
+    gc.disable()
+    try:
+        try:
+            w, fp = open_lowlevel(target, path)
+        except Exception as e:  # noqa: BLE001
+            ctx.violation(None, "low-level writer %s cannot be created" % target, detail={"exception": repr(e)[:300]})
+            return
+        run_ops(w, hist, records, errors)
+        # judged here: w and fp are still alive, nothing has been garbage collected
+        view = io17.inspect_file(fam, codec, path)
+        problems = io17.diff_view(fam, view, expected)
+        if nw == 0 and fam not in io17.VALID_EMPTY_FAMILIES:
+            problems = [q for q in problems if q[0] == "indep-mismatch"]
+        keep = (w, fp)  # noqa: F841 - the references that keep __del__ / finalizers from running before the verdict
+    finally:
+        if was_enabled:
+            gc.enable()
+    ctx.nontrivial("lowlevel", target, hist)
+    ctx.cell("lowlevel", target, hist[-2:] if hist.endswith("cc") else hist[-1:])
+    ctx.event("f_cases")
+    ctx.event("f_records_written", nw)
+    for e in errors:
+        ctx.event("f_op_raised:%s:%s" % (target, e["op"]))
+    if view.indep is not None:
+        ctx.event("f_independent_reads")
+    if problems:
+        key = None
+        if fam == "stream" and nw == 0 and "f" not in hist and stream_empty_mechanism(view, problems):
+            key = "stream-close-without-flush-empty"
+        report(ctx, key, "%s after history %s (judged right after close)" % (target, hist), problems,
+               {"writer": target, "history": hist, "op_errors": errors, "file_size": view.size})
+    else:
+        ctx.event("f_held")
+    del keep, w, fp
+    ctx.sample({"case": case, "file_size": view.size}, kind="lowlevel:" + target)
+    shutil.rmtree(d, ignore_errors=True)
+
+
+def exec_datesplitter(ctx, case):
+    """flow.record.RecordDateSplitter: one gzip stream per day of record.ts under a base directory."""
+    import gc
+
+    import flow.record
+
+    rng = random.Random(case["s"])
+    d = case_dir(ctx)
+    pat = case["pat"]
+    base = _dt.datetime(2023, 1, 1, tzinfo=io17.UTC) + _dt.timedelta(days=rng.randrange(400))
+    days = {"a": base, "b": base + _dt.timedelta(days=1), "c": base + _dt.timedelta(days=40)}
+    stamps = [days[ch] + _dt.timedelta(hours=rng.randrange(24), minutes=rng.randrange(60)) for ch in pat]
+    records = io17.make_records(case["s"], len(pat), "t", extra=[{"ts": t} for t in stamps])
+    expected = io17.observe_all(records)
+    ctx.ev()
+    cls = getattr(flow.record, "RecordDateSplitter", None)
+    if cls is None:
+        ctx.event("g_datesplitter_not_exported")
+        shutil.rmtree(d, ignore_errors=True)
+        return
+    errors = []
+    was_enabled = gc.isenabled()
+    gc.disable()
+    try:
+        try:
+            w = cls(d)
+        except Exception as e:  # noqa: BLE001
+            ctx.violation(None, "RecordDateSplitter cannot be created", detail={"exception": repr(e)[:300]})
+            return
+        run_ops(w, "w" * len(pat) + case["end"], records, errors)
+        files = sorted(os.listdir(d))
+        views = {fn: io17.inspect_file("stream", "gz", os.path.join(d, fn)) for fn in files}
+        keep = w  # noqa: F841
+    finally:
+        if was_enabled:
+            gc.enable()
+    ctx.nontrivial("datesplitter", pat, case["end"])
+    ctx.event("g_cases")
+    extra = {"pattern": pat, "ending": case["end"], "op_errors": errors, "files": files}
+    # every day has one file that holds exactly that day's records, in order
+    per_day = {}
+    for ch, o in zip(pat, expected):
+        per_day.setdefault((days[ch].year, days[ch].month, days[ch].day), []).append(o)
+    got = []
+    ok = True
+    for fn, view in views.items():
+        probs = []
+        if view.reader_error is not None:
+            probs.append(("reader-rejects", "a per-day file is not readable right after close()", {"error": view.reader_error}))
+        if view.indep_error is not None:
+            probs.append(("indep-rejects", "an independent tool rejects a per-day file right after close()", {"error": view.indep_error}))
+        if probs:
+            ok = False
+            report(ctx, None, "RecordDateSplitter file %r" % fn, probs, dict(extra, size=view.size))
+            continue
+        if view.reader_obs != view.indep["obs"]:
+            ok = False
+            ctx.violation(None, "RecordDateSplitter: reader and independent reader disagree", detail=dict(extra, file=fn))
+        got.append(view.reader_obs)
+        ctx.event("g_files_read")
+    if ok and sorted(map(repr, got)) != sorted(repr(v) for v in per_day.values()):
+        ok = False
+        ctx.violation(None, "RecordDateSplitter: the per-day files do not hold exactly the records of their day",
+                      detail=dict(extra, per_day=[len(v) for v in per_day.values()], per_file=[len(g) for g in got]))
+    if ok:
+        ctx.event("g_held")
+    del keep, w
+    ctx.sample({"case": case, "files": files}, kind="datesplitter")
+    shutil.rmtree(d, ignore_errors=True)
+
+
+# ---- (a4) SQLite: refused records relative to the batch boundary ----------------------------------------------------
+def exec_sqlite_refuse(ctx, case):
+    from flow.record import RecordWriter
+
+    seq, bs, end = case["seq"], case["bs"], case["end"]
+    d = case_dir(ctx)
+    path = os.path.join(d, "out.db")
+    records = io17.make_records(case["s"], len(seq), "v", shape_seq=seq)
+    obs_all = io17.observe_all(records)
+    ctx.ev()
+    try:
+        w = RecordWriter("sqlite://%s?batch_size=%d" % (path, bs))
+    except Exception as e:  # noqa: BLE001
+        ctx.violation(None, "sqlite: the writer cannot be created", detail={"exception": repr(e)[:300]})
+        shutil.rmtree(d, ignore_errors=True)
+        return
+    if "x" in end:
+        w.__enter__()
+    accepted, refused, errors = [], [], []
+    for i, r in enumerate(records):
+        try:
+            w.write(r)  # the application catches a refusal and carries on
+            accepted.append(i)
+        except Exception as e:  # noqa: BLE001
+            refused.append(i)
+            errors.append({"at": i, "shape": seq[i], "exception": "%s: %s" % (type(e).__name__, str(e)[:160])})
+    run_ops(w, end, [], errors)
+    del w
+    ctx.nontrivial("sqlrefuse", seq, bs, end)
+    for i in refused:
+        ctx.cell("sqlrefuse", "bs%d" % bs, "accepted_before_mod_bs=%d" % (len([a for a in accepted if a < i]) % bs))
+    ctx.event("s_cases")
+    ctx.event("s_records_refused", len(refused))
+    ctx.event("s_records_accepted", len(accepted))
+    for i in refused:
+        if seq[i] == "v":
+            ctx.violation(None, "sqlite: a record the database can hold was refused", detail={"sequence": seq, "index": i, "op_errors": errors})
+    view = io17.inspect_file("sqlite", None, path)
+    expected = [obs_all[i] for i in accepted if seq[i] == "v"]
+    bad_accepted = [i for i in accepted if seq[i] != "v"]
+    ctx.event("s_unmappable_accepted", len(bad_accepted))
+    problems = io17.diff_view("sqlite", view, expected) if not bad_accepted else []
+    if bad_accepted:
+        # an unmappable record that was stored anyway: only identities are compared (its value is C18's subject)
+        want = [io17.ident(obs_all[i])[1:] for i in accepted]
+        seen = [tuple(x) for x in (view.indep or {}).get("per_table", {}).get("c17/av", [])]
+        if view.indep_error or seen != want:
+            problems = [("indep-mismatch", "rows seen by sqlite3 differ from the records whose write() returned", {"want": want[:12], "seen": seen[:12]})]
+    if problems:
+        report(ctx, None, "sqlite after a history with refused records (%s, batch size %d, ending %s)" % (seq, bs, end), problems,
+               {"sequence": seq, "batch_size": bs, "ending": end, "accepted": accepted, "refused": refused, "op_errors": errors})
+    else:
+        ctx.event("s_held")
+    ctx.sample({"case": case, "accepted": accepted, "refused": refused}, kind="sqlrefuse:bs%d" % bs)
+    shutil.rmtree(d, ignore_errors=True)
+
+
+# ---- (e2) optimised interpreters / (e3) working-directory histories: child jobs judged like files --------------------
+OPT_VARIANTS = {
+    "plain": ((), {}), "-O": (("-O",), {}), "-OO": (("-OO",), {}), "PYTHONOPTIMIZE=1": ((), {"PYTHONOPTIMIZE": "1"}),
+    "PYTHONOPTIMIZE=2": ((), {"PYTHONOPTIMIZE": "2"}),
+}
+CWD_KINDS = ["stream", "stream.gz", "stream.zst", "jsonfile", "csvfile", "avro", "sqlite", "line", "text"]
+CWD_HISTORIES = ["dwwc", "wdwc", "wwdc", "dwdwx", "wdfwc", "dc", "dx", "wwdx", "dwdwdc"]
+
+
+def judge_file_job(ctx, label, kind, path, hist, seed, shapes, js, extra, shape_seq=None):
+    """One child job that wrote a single file: conservation over the records whose write() returned."""
+    spec = io17.KINDS[kind]
+    fam = spec["fam"]
+    nw = hist.count("w")
+    if not js.get("created"):
+        ctx.violation(None, "%s: the writer cannot be created" % label, detail=dict(extra, error=js.get("create_error")))
+        return False
+    obs_all = io17.observe_all(io17.make_records(seed, nw, shapes, generated=io17.fixed_generated(nw), shape_seq=shape_seq))
+    failed = set(js.get("failed_writes", []))
+    expected = [o for i, o in enumerate(obs_all) if i not in failed]
+    for i in failed:
+        shape = shape_seq[i % len(shape_seq)] if shape_seq else None
+        legitimate = shape in ("b", "s") or (extra.get("mixed_types") and shape != shape_seq[0])
+        if not legitimate:
+            ctx.violation(None, "%s: a record the format can hold was refused" % label, detail=dict(extra, index=i))
+    view = io17.inspect_file(fam, spec["codec"], path)
+    problems = io17.diff_view(fam, view, expected)
+    if nw == 0 and fam not in io17.VALID_EMPTY_FAMILIES:
+        problems = [q for q in problems if q[0] == "indep-mismatch"]
+    if problems:
+        key = None
+        first_closing = next((op for op in hist if op in "cx"), "c")
+        if fam == "stream" and nw == 0 and first_closing == "c" and "f" not in hist and stream_empty_mechanism(view, problems):
+            key = "stream-close-without-flush-empty"
+        report(ctx, key, "%s: %s after history %s" % (label, kind, hist), problems, dict(extra, file_size=view.size, failed_writes=sorted(failed)))
+        return key is not None
+    return True
+
+
+def exec_optimized(ctx, case):
+    variant = case["v"]
+    pyflags, envextra = OPT_VARIANTS[variant]
+    d = case_dir(ctx)
+    rng = random.Random(case["s"])
+    jobs, meta = [], []
+
+    def add(kind, name, hist, shapes, shape_seq=None, uri=None, split=None, mixed=False):
+        spec = io17.KINDS[kind]
+        sub = os.path.join(d, "j%d" % len(jobs))
+        os.makedirs(sub)
+        path = os.path.join(sub, name + spec["ext"])
+        seed = subseed(case["s"], len(jobs))
+        jobs.append({"uri": uri(path) if uri else io17.write_uri(kind, path), "hist": hist, "seed": seed, "shapes": shapes, "shape_seq": shape_seq})
+        meta.append({"kind": kind, "path": path, "dir": sub, "hist": hist, "seed": seed, "shapes": shapes, "shape_seq": shape_seq, "split": split, "mixed": mixed})
+
+    # Avro holds one record type: a record of another type must be refused, never stored as the first type
+    for sq in rng.sample(["xxvx", "xvx", "vxxv", "xvvx", "vxv", "xxxv"], 3):
+        add("avro", "mixed", "w" * len(sq) + rng.choice(["c", "x"]), "x", shape_seq=sq, mixed=True)
+    # refusals in the middle (value the encoder cannot take)
+    for sq in rng.sample(["vbv", "vsvv", "bvv", "vvsv"], 2):
+        add("avro", "refuse", "w" * len(sq) + "c", "v", shape_seq=sq)
+    # split+avro: parts that start with the other type
+    for sq, limit in (("xxvxx", 2), ("xvxvx", 1), ("vxxxv", 3)):
+        add("avro", "part", "w" * len(sq) + rng.choice(["c", "x"]), "x", shape_seq=sq, mixed=True,
+            uri=lambda p, limit=limit: "split+avro://%s?count=%d&suffix-length=2" % (p, limit), split=limit)
+    # split of a stream with grouped records, SQLite with a refused record
+    add("stream", "gpart", "wwwwwx", "xyzgG", shape_seq="gGxGg", uri=lambda p: "split://%s?count=2&suffix-length=1" % p, split=2)
+    for sq in rng.sample(["vvbv", "vsvvv", "vvvb"], 2):
+        add("sqlite", "refuse", "w" * len(sq) + "c", "v", shape_seq=sq, uri=lambda p: "sqlite://%s?batch_size=3" % p)
+    status = run_state_child(ctx, "plain", jobs, d, pyflags=pyflags, envextra=envextra, what="optimised-interpreter")
+    if status is None:
+        shutil.rmtree(d, ignore_errors=True)
+        return
+    want_opt = {"plain": 0, "-O": 1, "-OO": 2, "PYTHONOPTIMIZE=1": 1, "PYTHONOPTIMIZE=2": 2}[variant]
+    if status.get("optimize") != want_opt:
+        ctx.require(False, "the child for %s ran with sys.flags.optimize=%r" % (variant, status.get("optimize")))
+        shutil.rmtree(d, ignore_errors=True)
+        return
+    ctx.nontrivial("optimized", variant, case["rot"])
+    ctx.event("h_cases")
+    ctx.event("h_children_optimize_%d" % want_opt)
+    held = True
+    for m, js in zip(meta, status["jobs"]):
+        extra = {"interpreter": variant, "adapter": m["kind"], "history": m["hist"], "shape_seq": m["shape_seq"], "op_errors": js["errors"],
+                 "mixed_types": m["mixed"]}
+        ctx.event("h_jobs")
+        ctx.cell("optimized", variant, m["kind"] + (":split" if m["split"] else ""))
+        if m["split"]:
+            nw = m["hist"].count("w")
+            obs_all = io17.observe_all(io17.make_records(m["seed"], nw, m["shapes"], generated=io17.fixed_generated(nw), shape_seq=m["shape_seq"]))
+            failed = set(js.get("failed_writes", []))
+            expected = [o for i, o in enumerate(obs_all) if i not in failed]
+            ctx.event("h_records_refused", len(failed))
+            fake = {"limit": m["split"], "sl": 1 if m["kind"] == "stream" else 2, "n": len(expected), "end": m["hist"][-1], "tg": "child"}
+            before = len(ctx.violations)
+            analyse_parts(ctx, fake, m["dir"], io17.KINDS[m["kind"]], None, expected, extra, "optsplit:" + variant)
+            held = held and len(ctx.violations) == before
+        else:
+            ctx.event("h_records_refused", len(js.get("failed_writes", [])))
+            held = judge_file_job(ctx, "interpreter %s" % variant, m["kind"], m["path"], m["hist"], m["seed"], m["shapes"], js, extra,
+                                  shape_seq=m["shape_seq"]) and held
+    if held:
+        ctx.event("h_held")
+    ctx.sample({"case": case, "jobs": len(jobs)}, kind="optimized:" + variant)
+    shutil.rmtree(d, ignore_errors=True)
+
+
+def exec_cwd(ctx, case):
+    """Path-based writers given a RELATIVE path while the application changes its working directory: the file named at
+    creation (relative to the cwd of that moment) must hold everything; nothing may appear under the other directory."""
+    rng = random.Random(case["s"])
+    d = case_dir(ctx)
+    dir_a, dir_b = os.path.join(d, "A"), os.path.join(d, "B")
+    for x in (dir_a, dir_b):
+        os.makedirs(os.path.join(x, "export"))
+    kinds = CWD_KINDS[case["rot"]:] + CWD_KINDS[:case["rot"]]
+    jobs, meta = [], []
+    for ki, kind in enumerate(kinds[: case["nk"]]):
+        spec = io17.KINDS[kind]
+        hist = CWD_HISTORIES[(ki + case["rot"] + case["s"]) % len(CWD_HISTORIES)]
+        rel = "export/out%d%s" % (ki, spec["ext"])
+        seed = subseed(case["s"], ki)
+        shapes = "x" if spec["fam"] == "avro" else spec["shapes"]
+        sch = spec["scheme"]
+        jobs.append({"uri": ("%s://%s" % (sch, rel)) if sch else rel, "hist": hist, "seed": seed, "shapes": shapes, "cwd": dir_a, "dirs": [dir_a, dir_b]})
+        meta.append((kind, rel, hist, seed, shapes))
+    status = run_state_child(ctx, "plain", jobs, d, what="working-directory")
+    if status is None:
+        shutil.rmtree(d, ignore_errors=True)
+        return
+    ctx.nontrivial("cwd", case["rot"], case["s"])
+    ctx.event("i_cases")
+    held = True
+    for (kind, rel, hist, seed, shapes), js in zip(meta, status["jobs"]):
+        extra = {"adapter": kind, "relative_path": rel, "history": hist, "op_errors": js["errors"]}
+        ctx.event("i_jobs")
+        ctx.cell("cwd", kind, "chdir_before_first_write" if hist.index("d") < (hist + "w").index("w") else "chdir_later")
+        stray = os.path.join(dir_b, rel)
+        if os.path.exists(stray):
+            held = False
+            ctx.violation(None, "cwd: output appeared relative to a later working directory instead of the one at creation",
+                          detail=dict(extra, stray_size=os.path.getsize(stray)))
+        held = judge_file_job(ctx, "relative path with chdir", kind, os.path.join(dir_a, rel), hist.replace("d", ""), seed, shapes, js, extra) and held
+    if held:
+        ctx.event("i_held")
+    ctx.sample({"case": case, "jobs": len(jobs)}, kind="cwd")
+    shutil.rmtree(d, ignore_errors=True)
+
+
 # ---- (e) process-state family ------------------------------------------------------------------------------
 def exec_procstate(ctx, case):
     state, rot = case["state"], case["rot"]
@@ -1080,43 +1548,8 @@ def exec_procstate(ctx, case):
             seed = subseed(case["s"], ki, hi)
             jobs.append({"uri": io17.write_uri(kind, path), "hist": hist, "seed": seed, "shapes": shapes})
             meta.append((kind, path, hist, seed, shapes))
-    jobs_path, status_path = os.path.join(d, "jobs.json"), os.path.join(d, "status.json")
-    with open(jobs_path, "w") as f:
-        json.dump(jobs, f)
-    ctx.ev()
-    argv = [sys.executable, "-W", "ignore", "-m", "verif.worker_c17", "--state", state, jobs_path, status_path]
-    kw = {"stdin": subprocess.DEVNULL, "stdout": subprocess.PIPE, "stderr": subprocess.PIPE}
-    sink = None
-    if state == "stdout-file":
-        sink = open(os.path.join(d, "child-stdout.bin"), "wb")
-        kw["stdout"] = sink
-    elif state == "stdout-closed-at-start":
-        argv = ["/bin/sh", "-c", 'exec "$0" "$@" >&-'] + argv  # the interpreter starts without descriptor 1 (sys.stdout is None)
-    try:
-        p = subprocess.run(argv, env=worker_env(), cwd=VERIF_DIR, timeout=WORKER_TIMEOUT_S, **kw)
-    except subprocess.TimeoutExpired:
-        ctx.require(False, "a C17 process-state child exceeded its %d s watchdog" % WORKER_TIMEOUT_S)
-        shutil.rmtree(d, ignore_errors=True)
-        return
-    finally:
-        if sink:
-            sink.close()
-    ctx.event("e_children_run")
-    status = None
-    try:
-        with open(status_path) as f:
-            status = json.load(f)
-    except (OSError, ValueError):
-        pass
-    if status is None or not status.get("done") or p.returncode != 0:
-        # a child that cannot report is inconclusive, never a verdict
-        ctx.require(False, "a C17 process-state child (%s) failed: exit %s, %s" % (
-            state, p.returncode, (status or {}).get("worker_error") or (p.stderr or b"")[-300:].decode("utf-8", "replace")))
-        shutil.rmtree(d, ignore_errors=True)
-        return
-    repo = os.path.realpath(os.environ.get("VERIF_REPO", "/repo"))
-    if not os.path.realpath(status["flow_record_file"]).startswith(repo + os.sep):
-        ctx.require(False, "C17 process-state child imported flow.record from %s, not from %s" % (status["flow_record_file"], repo))
+    status = run_state_child(ctx, state, jobs, d)
+    if status is None:
         shutil.rmtree(d, ignore_errors=True)
         return
     ctx.nontrivial("procstate", state, rot)
@@ -1245,6 +1678,16 @@ def execute(ctx, case):
         return exec_split_relative(ctx, case)
     if case["k"] == "procstate":
         return exec_procstate(ctx, case)
+    if case["k"] == "ll":
+        return exec_lowlevel(ctx, case)
+    if case["k"] == "datesplit":
+        return exec_datesplitter(ctx, case)
+    if case["k"] == "sqlrefuse":
+        return exec_sqlite_refuse(ctx, case)
+    if case["k"] == "opt":
+        return exec_optimized(ctx, case)
+    if case["k"] == "cwd":
+        return exec_cwd(ctx, case)
     if case["k"] == "overlap":
         return exec_overlap(ctx, case)
     if case["k"] == "avrefuse":
@@ -1282,6 +1725,11 @@ def finish(ctx):
     ctx.require(ev.get("v_cases", 0) > 0 and ev.get("v_records_refused", 0) > 0 and ev.get("v_records_accepted", 0) > 0,
                 "no Avro history in which a record was refused and others accepted")
     ctx.require(ev.get("e_cases", 0) > 0 and ev.get("e_files_read", 0) > 0, "part (e): no process-state child was read back")
+    ctx.require(ev.get("f_cases", 0) > 0 and ev.get("f_independent_reads", 0) > 0, "part (f): no low-level writer was judged after close()")
+    ctx.require(ev.get("s_cases", 0) > 0 and ev.get("s_records_refused", 0) > 0 and ev.get("s_records_accepted", 0) > 0,
+                "no SQLite history in which a record was refused and others accepted")
+    ctx.require(ev.get("h_cases", 0) > 0 and ev.get("h_jobs", 0) > 0, "no child interpreter of the optimisation family reported")
+    ctx.require(ev.get("i_cases", 0) > 0 and ev.get("i_jobs", 0) > 0, "no working-directory child reported")
     ctx.require(ev.get("b_rel_cases", 0) > 0, "part (b): no split target with a relative name was written")
     ctx.require(ev.get("d_cases", 0) > 0 and ev.get("d_independent_reads", 0) > 0 and ev.get("d_bytes_captured", 0) > 0,
                 "part (d): no standard-output capture was read back")
